@@ -432,7 +432,7 @@ fn legacy(run: &mut Run, g: &Gen, r: &mut Rng) {
         .with_settings(serde_json::json!({"verify": {"verify_trust": trust}}).to_string().as_str())
         .expect("settings");
     let sts = status.as_ref().map(|v| v.iter().map(|c| st(c).set_kind(LogKind::Failure)).collect::<Vec<_>>());
-    let reader = c2pa::verif_hooks::reader_with_legacy_status(ctx, sts).expect("legacy reader");
+    let reader = c2pa::verif_hooks::c04::reader_with_legacy_status(ctx, sts).expect("legacy reader");
     let state = reader.validation_state();
     let s = match &status {
         None => "-".to_string(),
